@@ -9,7 +9,7 @@
    plus sleep), stereotype, stage count and budget, and any list of injected messages; all
    statements hold for every script. *)
 From Coq Require Import List NArith Bool.
-From DesVerif Require Import Common.Fuel Life.Fresh Life.Local Life.Model Life.Base Life.Step Life.Trace Life.Frame Life.Inert Life.Inv Life.Events Life.Restart Life.Term.
+From DesVerif Require Import Common.Fuel Life.ModelCq Life.CqInst Life.Fresh Life.Local Life.Model Life.Base Life.Step Life.Trace Life.Frame Life.Inert Life.Inv Life.Events Life.Restart Life.Term.
 Import ListNotations.
 Open Scope N_scope.
 
@@ -321,3 +321,58 @@ Example C09_restarted_as_fresh_nonvacuous :
   e_items (snd (end_rec fx 11 0 (mrun fx wa (f_evs e0)))) = [ICall 0 CbEnd 11 true; ILog 0 0 30].
 Proof. vm_compute. repeat split; reflexivity. Qed.
 
+
+(* ---- composition with C01: the life-cycle model over the calendar queue ----
+   Every theorem above is about [run_script], which threads the SPECIFICATION of the event set ([fes]: a zero-delay
+   FIFO and a time-sorted list).  The real crate runs on des-cqueue's calendar queue.  [run_script_cq n t] / [run_cq n t]
+   (coq/Life/ModelCq.v) are the same event loop over the calendar-queue model of C01 (CQueue/Model.v: [cq_new_at n t 0],
+   [add], [fetch_next] while [qlen] is not 0) for n buckets of width t: the callbacks are literally those of Life/Sim.v
+   (Life/CqComm.v: none of them touches the event set), the event-set layer (deactivate's wake-up, buf_process, the
+   restart event, message hops, the injections, the fetch of the main loop) goes through the queue.  The forward
+   simulation (Life/CqSim.v, Life/CqInst.v) composes fes <-> sp + event store with sp <-> cq through the relation R of C01
+   (R_add, R_fetch, R_len, R_new_at); R_add needs every add to be at or after the queue's clock, which is the
+   "nothing is scheduled into the past" invariant FW of Life/Future.v. *)
+Theorem C09_run_script_over_cqueue : forall n t sc, n <> 0 -> t <> 0 -> run_script_cq n t sc = run_script sc.
+Proof. exact run_script_over_cqueue. Qed.
+Print Assumptions C09_run_script_over_cqueue.
+
+Theorem C09_run_over_cqueue_eq_run_over_spec : forall n t input, n <> 0 -> t <> 0 -> run_cq n t input = run input.
+Proof. exact run_over_cqueue. Qed.
+Print Assumptions C09_run_over_cqueue_eq_run_over_spec.
+
+(* the same over des-cqueue's own specification type (CQueue/Spec.v [sp], with the event store) *)
+Theorem C09_run_over_cqueue_spec : forall sc, run_script_sp sc = run_script sc.
+Proof. exact run_over_sp_eq. Qed.
+Print Assumptions C09_run_over_cqueue_spec.
+
+(* the headline clauses, for the run over the calendar queue *)
+Theorem C09_inert_while_down_cq : forall n t sc m pre e post, n <> 0 -> t <> 0 ->
+  trace_cq n t sc = pre ++ e :: post -> down_after m pre = true -> starts m e = false ->
+  no_run m (e_items e) /\
+  (is_end e = false -> forallb (fun i => negb (of_mod m i)) (e_items e) = true).
+Proof. intros n t sc m pre e post Hn Ht. rewrite trace_over_cqueue by assumption. apply inert_while_down. Qed.
+Print Assumptions C09_inert_while_down_cq.
+
+Theorem C09_restart_stages_once_at_time_cq : forall n t, n <> 0 -> t <> 0 ->
+  (forall sc pre e post m, trace_cq n t sc = pre ++ e :: post -> e_kind e = KLoop (EvRestart m) ->
+     pending m pre = Some (e_time e)) /\
+  (forall sc m, pending m (trace_cq n t sc) = None) /\
+  (forall sc e m, In e (trace_cq n t sc) -> e_kind e = KLoop (EvRestart m) ->
+     (exists n, (stage_list (c_stages (cfg sc m)) <> [] -> (0 < n)%nat) /\
+        map call_key (start_calls (e_items e)) =
+        map (fun st => (m, st, e_time e)) (firstn n (stage_list (c_stages (cfg sc m))))) /\
+     ((forall c, ~ In (IPanic m 0 c) (e_items e)) ->
+        map call_key (start_calls (e_items e)) =
+        map (fun st => (m, st, e_time e)) (stage_list (c_stages (cfg sc m))))).
+Proof.
+  intros n t Hn Ht. destruct C09_restart_stages_once_at_time as (A & B & C).
+  split; [|split]; intros sc; rewrite (trace_over_cqueue n t sc Hn Ht); [apply A|apply B|apply C].
+Qed.
+Print Assumptions C09_restart_stages_once_at_time_cq.
+
+(* non-vacuity: a queue of 3 buckets of width 2 on the example above (shutdown at 2, stale wake-up at 3, message to the
+   down module at 4, restart at 7, the new task's timers at 10 and 20) *)
+Example C09_nonvacuous_cq :
+  run_script_cq 3 2 ex = run_script ex /\ length (trace_cq 3 2 ex) = length (trace ex) /\
+  map e_time (trace_cq 3 2 ex) = map e_time (trace ex) /\ Nat.ltb 10 (length (trace_cq 3 2 ex)) = true.
+Proof. vm_compute. repeat split; reflexivity. Qed.
